@@ -20,7 +20,7 @@ AFBody(a) ==
   Pack(B(a.disc) \o B(a.rai) \o B(a.espi) \o B(Present(a.pcr)) \o B(Present(a.opcr)) \o B(Present(a.splice)) \o B(Present(a.priv)) \o B(Present(a.ext)))
   \o (IF Present(a.pcr) THEN PCRBytes(a.pcr) ELSE <<>>)
   \o (IF Present(a.opcr) THEN PCRBytes(a.opcr) ELSE <<>>)
-  \o (IF Present(a.splice) THEN <<a.splice[1]>> ELSE <<>>)
+  \o (IF Present(a.splice) THEN << (a.splice[1] + 256) % 256 >> ELSE <<>>)      \* splice_countdown is an 8-bit two's complement number (tcimsbf, -128..127)
   \o (IF Present(a.priv) THEN <<Len(a.priv[1])>> \o a.priv[1] ELSE <<>>)
   \o (IF Present(a.ext) THEN LET xb == ExtBody(a.ext[1]) IN <<Len(xb)>> \o xb ELSE <<>>)
   \o Fill(255, a.stuff)
